@@ -5,11 +5,12 @@ Proved over the model: the parser is total (its fuel-bounded loops never run out
 iteration consumes input) and has no panic outcome, for ALL byte strings; producing corrections
 for what the parser returns has no panic path for ANY predictor; serialising any in-range
 parameter vector hits no `try_from().unwrap()` (C08); the codec does not hit the shift overflow
-(C10); the verify = true branch succeeds whenever analysis did (C02). Not proved (correspondence /
-oracle runs only): index safety of the array-encoded Huffman tree, the estimators
+(C10); the verify = true branch succeeds whenever analysis did (C02). the array-encoded Huffman tree is index safe
+(`tree_index_safe`). Not proved (correspondence / oracle runs only): the estimators
 (complevel / depth / add-policy) and the concrete hash chains; stack, heap and running time.
 -/
 import Preflate.Proofs.Spec
+import Preflate.Proofs.HuffTree
 import Preflate.Props.C08
 import Preflate.Props.C10
 namespace Preflate
@@ -21,6 +22,14 @@ theorem parse_no_panic (d : List UInt8) (m : String) : parse d ≠ .error (.pani
 /-- all byte strings: the parser terminates without exhausting its loop bound ("no hang") -/
 theorem parse_no_fuel (d : List UInt8) : parse d ≠ .error .fuel :=
   Proofs.parseBits_no_fuel (bytesToBits d)
+
+/-- index safety of the array-encoded Huffman tree (huffman_helper.rs `calculate_huffman_code_tree` /
+    `decode_symbol`, transcribed literally in Model/HuffTree.lean): for every length vector the
+    validity check accepts, building stays inside the allocated array and walking never indexes out
+    of range, whatever the input bits -/
+theorem tree_index_safe (l : List Nat) (h : validLengths l = true) :
+    ∃ t, buildTree l = .ok t ∧ ∀ bs m, decodeSymTree t bs ≠ .error (.panic m) :=
+  Proofs.tree_index_safe l h
 
 variable {H : Type}
 
